@@ -18,8 +18,12 @@ def run(ctx):
     progs = gwprograms.{fam}
     opts = [{{"post_yields": True}}, {{"post_yields": True, "chunking": "random"}}, {{"post_yields": False}},
             {{"post_yields": True, "line_level": LINE_FUNCS}}]
+    # the whole family once more on a gateway whose string coercion was reconfigured (nothing about channels, closes, errors or
+    # remote_exec may depend on the coercion switches)
+    opts.append({{"post_yields": True, "reconfigure": (False, True)}})
     if not ctx.quick:
         opts.append({{"post_yields": True, "transport": "socket", "chunking": "random"}})
+        opts.append({{"post_yields": False, "reconfigure": (True, True)}})
     jobs = gc.jobs_for(progs, 24 if ctx.quick else 120, 10 if ctx.quick else 40, ctx.seed, opts)
     # preemption-bounded systematic search (every schedule with <= 1 preemption, yields before and after each operation)
     searches = [(p, 1, 250 if ctx.quick else 6000, {{"post_yields": True}}) for p in progs[: 6 if ctx.quick else 14]]
@@ -74,7 +78,7 @@ D = {
 "c18": dict(post='ctx.coverage["chanlife_replay"] = life\n    ctx.coverage["apalache_inductive_invariant"] = gc.chanids_inductive(ctx)', extra='life = gc.chanlife_part(ctx, ["C18.", "C10.", "C03.", "C02."], 4 if ctx.quick else 6)',title="C18 -- channel ids never collide and channels travel over channels intact",
   cfgs='[("MCChanIds", "CI"), "GW_data"] if ctx.quick else [("MCChanIds", "CI"), ("MCChanIds", "CI_big"), "GW_data", "GW_data_big"]', mutants='[("MCChanIds", "CI_nolock")]',
   fam="c18_programs(rng, 8 if ctx.quick else 60)", own='["C18.", "C02.", "C10.dropped-callback"]',
-  line='["new", "newchannel", "remote_exec", "load_channel", "_no_longer_opened", "close", "__init__", "setcallback", "_local_close"]',
+  line='["new", "newchannel", "remote_exec", "remote_status", "load_channel", "_no_longer_opened", "close", "__init__", "setcallback", "_local_close", "reconfigure"]',
   nontriv='lambda evs: sum(1 for e in evs if e["ev"] == "ret" and e["op"] in ("newchannel", "remote_exec")) >= 3',
   rule="concurrent newchannel/remote_exec calls from several threads on both sides; channels created on either side passed over channels (plain and nested in containers) and used; open/transfer/close/drop cycles with the channel table size compared before and after",
   ntext="non-trivial = at least three channels were created",
